@@ -630,6 +630,112 @@ def r05_8(prog, rep):
         rep.broken_("rule=R05.8 expected >=2 guarded reads of a rule stream's cache, found %d" % n)
 
 
+
+def r05_10(prog, rep, rid="R05.10"):
+    """free_echs_task() frees the strings a task owns.  A member that the calendar-level prologue can set (snarf_pro(), directly or
+    through snarf_fld()) reaches every event of the file through the struct copy at BEGIN:VEVENT; if it is one of the owned strings
+    the event must get a copy of its own there, or every task made from the file frees the same pointer."""
+    fr = prog.fn("free_echs_task", "task.c")
+    owned = set()
+    for b, i, x, line in fr.cfg.all_elems():
+        if not isinstance(x, dict):
+            continue
+        for c in calls(x):
+            if c.get("fn") == "free" and c.get("a"):
+                a = strip_casts(fr.cfg.resolve(c["a"][0]))
+                while a.get("k") == "call" and a.get("a"):          # deconst(x), nummapstr_str(x)
+                    a = strip_casts(fr.cfg.resolve(a["a"][0]))
+                t = lv(fr.expand(a))
+                if a.get("k") == "ref" and a.get("dk") == "local":
+                    # tmps = nummapstr_str(t->owner): the freed local stands for that member
+                    for b2, i2, x2, l2 in fr.cfg.all_elems():
+                        if isinstance(x2, dict):
+                            for l, kind, nn in writes(x2):
+                                if lv(l) == a["n"] and nn.get("k") == "bin" and nn["op"] == "=":
+                                    paths = {lv(q) for q in walk(fr.cfg.resolve(nn["r"])) if q.get("k") == "mem" and "->" in lv(q)}
+                                    for pth in paths:
+                                        if not any(o != pth and o.startswith(pth + ".") for o in paths):
+                                            owned.add(pth.split("->", 1)[1])
+                elif "->" in t:
+                    owned.add(t.split("->", 1)[1])
+    owned = {m for m in owned if m}
+    if len(owned) < 6:
+        raise AnalysisBroken("free_echs_task: owned string members not found (%s)" % sorted(owned))
+    pro, fldf = prog.fn("snarf_pro", "evical.c"), prog.fn("snarf_fld", "evical.c")
+    fpar_p = [p_["n"] for p_ in pro.params if "fld" in (p_.get("t") or "")]
+    fpar_f = [p_["n"] for p_ in fldf.params if "fld" in (p_.get("t") or "")]
+    en = prog.enum(having="FLD_SHELL")
+    if not fpar_p or not fpar_f or not en:
+        raise AnalysisBroken("R05.10: field discriminant of snarf_pro/snarf_fld not found")
+    cal = set()
+    for name, val in en["enumerators"]:
+        direct, deleg = set(), []
+        vep_p = pro.params[0]["n"]
+
+        def eff(b, i, x, store, _d=direct, _g=deleg):
+            for c in calls(x):
+                if c.get("fn") == fldf.name:
+                    _g.append(1)
+            for l, kind, nn in writes(x):
+                t = lv(l)
+                for pre in (vep_p + "->t.", vep_p + "[0].t."):
+                    if t.startswith(pre):
+                        _d.add(t[len(pre):])
+            return None
+        AbsWalk(pro, {fpar_p[0]}, init={fpar_p[0]: val}, effect=eff).run()
+        cal |= direct
+        if deleg:
+            vep = fldf.params[0]["n"]
+            st = set()
+
+            def eff2(b, i, x, store, _s=st):
+                for l, kind, nn in writes(x):
+                    t = lv(l)
+                    for pre in (vep + "->t.", vep + "[0].t.", "(*%s).t." % vep):
+                        if t.startswith(pre):
+                            _s.add(t[len(pre):])
+                return None
+            AbsWalk(fldf, {fpar_f[0]}, init={fpar_f[0]: val}, effect=eff2, max_states=100000).run()
+            cal |= st
+    shared = sorted(m for m in owned if m in cal)
+    # the struct copies of the task record from the calendar-level bucket into the event's
+    par = prog.fn("_ical_proc", "evical.c") if prog.has_fn("_ical_proc", "evical.c") else None
+    sites = []
+    for f in prog.fns_in("evical.c"):
+        if not f.cfg:
+            continue
+        for b, i, x, line in f.cfg.all_elems():
+            if isinstance(x, dict):
+                for l, kind, nn in writes(x):
+                    if nn.get("k") == "bin" and nn["op"] == "=" and "echs_task_s" in (strip_casts(l).get("t") or "") and "globve" in lv(strip_casts(f.cfg.resolve(nn["r"]))):
+                        sites.append((f, b, i, line, lv(l)))
+    if not sites:
+        raise AnalysisBroken("R05.10: the copy of the calendar-level task record into an event was not found")
+    n = 0
+    from ..q import Site, site_before
+    for f, b, i, line, dst in sites:
+        cfg = f.cfg
+        for m in shared:
+            n += 1
+            key = "%s/%s-copied-not-shared" % (f.name, m)
+            ok = False
+            for b2, i2, x2, l2 in cfg.all_elems():
+                if isinstance(x2, dict):
+                    for l, kind, nn in writes(x2):
+                        if lv(l) == dst + "." + m and nn.get("k") == "bin" and nn["op"] == "=" and \
+                                any(q.get("k") == "call" and q.get("fn") in ("strdup", "strndup") for q in walk(cfg.resolve(nn["r"]))) and \
+                                site_before(cfg, Site(b, i, None, line), Site(b2, i2, None, l2)):
+                            ok = True
+            if ok:
+                rep.ok(rid, key, f.loc(line), "`%s.%s` gets a copy of its own after the struct copy" % (dst, m))
+            else:
+                rep.fail(rid, key, f.loc(line), "`%s = ...globve.t` hands the calendar-level `%s` — a heap string that free_echs_task() frees — to every event of the "
+                         "file by pointer: the second task made from the file frees it again (abort with a double free) and in between reads freed memory "
+                         "as its user, group or owner name" % (dst, m))
+    if n < 3:
+        rep.broken_("rule=%s expected >=3 owned members that can be set at calendar level (owner, run-as user, run-as group), found %d (%s)" % (rid, n, shared))
+
+
 def run(prog, rep, tier, snap):
     rep.rule("R05.1", "every emitted keyword/parameter/part/component/method is accepted by the reader", 50)
     rep.call(r05_1, prog, rep)
@@ -654,6 +760,11 @@ def run(prog, rep, tier, snap):
     from ..rules import state
     rep.rule("R05.9", "the serialiser carries no state from one task to the next (memo keys must cover every argument)", 1)
     rep.call(state.no_carried_state, prog, rep, "R05.9", "serialise")
+    rep.rule("R05.10", "strings a task owns are copied, not shared, when an event inherits them from the calendar level", 3)
+    rep.call(r05_10, prog, rep)
+    from . import c10
+    rep.rule("R10.7", "the byte behind a backslash reaches the task (shared with C10)", 1)
+    rep.call(c10.r10_7, prog, rep, "R10.7", ("kept",))
     from . import c07
     rep.rule("R07.1", "the zone handle of a DTSTART reads back as the zone whose TZID is written (shared with C07)", 2)
     rep.call(c07.r07_1, prog, rep)
